@@ -195,3 +195,7 @@ def shared_generic_groups(program):
             groups.setdefault(key, []).append(n['id'])
     return {'_'.join(str(int(x)) if isinstance(x, bool) else str(x) for x in k): v
             for k, v in groups.items() if len(v) >= 2}
+
+
+def clone(program):
+    return json.loads(json.dumps(program))
